@@ -562,3 +562,160 @@ Proof.
   - eapply del_toks_rule; eassumption.
   - inv_bind H. inversion H; subst. reflexivity.
 Qed.
+
+(* ---------------- (E) statements: no reference is lost — the reference tokens are exactly the field leaves of the
+   statement's own clause items (resolved), clause by clause, in order ---------------- *)
+Lemma st_app a b : stok_tables (a ++ b) = stok_tables a ++ stok_tables b.
+Proof. apply flat_map_app. Qed.
+Lemma st_tx s : stok_tables (tx s) = [].
+Proof. reflexivity. Qed.
+Lemma st_ctext s r : stok_tables ((ClText, KText s) :: r) = stok_tables r.
+Proof. reflexivity. Qed.
+Lemma st_tg cl ts : stok_tables (tg cl ts) = tgt cl (tok_tables ts).
+Proof.
+  induction ts as [|t r IH]; [reflexivity|]. unfold tg in *. cbn [map]. destruct t as [s|tb qu n st].
+  - exact IH.
+  - change (stok_tables ((cl, KRef tb qu n st) :: map (pair cl) r)) with ((cl, tb) :: stok_tables (map (pair cl) r)).
+    rewrite IH. reflexivity.
+Qed.
+Lemma st_sparen b l : stok_tables (sparen b l) = stok_tables l.
+Proof. destruct b; [|reflexivity]. unfold sparen. rewrite !st_app, !st_tx. cbn. apply app_nil_r. Qed.
+Lemma st_salias walias l ali askw_ aqc qc' : stok_tables (salias walias l ali askw_ aqc qc') = stok_tables l.
+Proof.
+  unfold salias. destruct walias; [|reflexivity]. destruct ali; [|reflexivity]. rewrite st_app, st_tx. apply app_nil_r.
+Qed.
+Lemma st_sjoin sep l : stok_tables (sjoin sep l) = List.concat (map stok_tables l).
+Proof.
+  induction l as [|x r IH]; [reflexivity|]. destruct r as [|y r'].
+  - cbn. rewrite app_nil_r. reflexivity.
+  - change (sjoin sep (x :: y :: r')) with (x ++ tx sep ++ sjoin sep (y :: r')).
+    rewrite !st_app, st_tx, IH. reflexivity.
+Qed.
+Lemma tgt_app cl a b : tgt cl (a ++ b) = tgt cl a ++ tgt cl b.
+Proof. apply map_app. Qed.
+Lemma tt_js (js : list (list tok)) :
+  tok_tables (match js with [] => [] | _ => KText " " :: jtoks " " js end) = List.concat (map tok_tables js).
+Proof. destruct js; [reflexivity|]. rewrite tt_text, tt_jtoks. reflexivity. Qed.
+
+Lemma itoks_tabs srcs i k c ts : itoks k srcs c i = Ok ts -> tok_tables ts = res_tabs srcs i.
+Proof. intros H. exact (proj2 (itoks_props srcs i k c ts H)). Qed.
+Lemma mapT_tabs {A} (h : A -> res (list tok)) (T : A -> list (option tref)) l :
+  (forall x ts, h x = Ok ts -> tok_tables ts = T x) -> forall tss, mapT h l = Ok tss ->
+  List.concat (map tok_tables tss) = flat_map T l.
+Proof.
+  intros Hh. induction l as [|x r IH]; intros tss H.
+  - inversion H; subst. reflexivity.
+  - cbn [mapT] in H. fold (mapT h r) in H. inv_bind H. inversion H; subst; clear H.
+    cbn [map List.concat flat_map]. rewrite (Hh _ _ E), (IH _ eq_refl). reflexivity.
+Qed.
+Lemma where_tabs kk srcs c kw wheres ts :
+  opt_bindT wheres (fun i => a <- itoks kk srcs c i ;; Ok (KText kw :: a)) = Ok ts ->
+  tok_tables ts = flat_map (res_tabs srcs) (opt_list wheres).
+Proof.
+  destruct wheres as [i|]; cbn [opt_bindT opt_list flat_map]; intros H.
+  - inv_bind H. inversion H; subst. rewrite tt_text, app_nil_r. eapply itoks_tabs; eassumption.
+  - inversion H; subst. reflexivity.
+Qed.
+Lemma join_toks_tabs k kk srcs ct cq con qc : forall joins ns tss,
+  join_toks k kk srcs ct cq con qc joins ns = Ok tss ->
+  List.concat (map tok_tables tss) = flat_map (res_tabs srcs) (on_items joins).
+Proof.
+  induction joins as [|[[h s] cnd] r IH]; intros ns tss H.
+  - inversion H; subst. reflexivity.
+  - cbn [join_toks] in H. fold (join_toks k kk srcs ct cq con qc) in H. inv_bind H. inversion H; subst; clear H.
+    cbn [map List.concat]. rewrite (IH _ _ E1), tt_text. unfold on_items at 2. cbn [flat_map snd]. fold (on_items r).
+    destruct cnd as [i|fs|].
+    + inv_bind E0. inversion E0; subst. rewrite tt_text, flat_map_app. cbn [flat_map]. rewrite app_nil_r.
+      rewrite (itoks_tabs _ _ _ _ _ E2). reflexivity.
+    + inversion E0; subst. reflexivity.
+    + inversion E0; subst. reflexivity.
+Qed.
+Lemma order_toks_tabs kk srcs c base selects : forall l tss,
+  order_toks kk srcs c base selects l = Ok tss ->
+  List.concat (map tok_tables tss)
+  = flat_map (fun yd => match alias_ref selects (fst yd) with Some _ => [] | None => res_tabs srcs (fst yd) end) l.
+Proof.
+  induction l as [|[y d] r IH]; intros tss H.
+  - inversion H; subst. reflexivity.
+  - cbn [order_toks] in H. fold (order_toks kk srcs c base selects) in H. inv_bind H. inversion H; subst; clear H.
+    cbn [map List.concat flat_map fst]. rewrite (IH _ eq_refl).
+    assert (A : tok_tables a = match alias_ref selects y with Some _ => [] | None => res_tabs srcs y end).
+    { destruct (alias_ref selects y); [inversion E; subst; reflexivity | eapply itoks_tabs; eassumption]. }
+    destruct d; [rewrite tt_app, A; cbn; rewrite app_nil_r; reflexivity | rewrite A; reflexivity].
+Qed.
+Lemma sets_toks_tabs kk srcs ctgt cval : forall l tss,
+  sets_toks kk srcs ctgt cval l = Ok tss ->
+  List.concat (map stok_tables tss)
+  = flat_map (fun fv => tgt ClSetTarget (field_tables (fst fv)) ++ tgt ClSetValue (res_tabs srcs (snd fv))) l.
+Proof.
+  induction l as [|[f v] r IH]; intros tss H.
+  - inversion H; subst. reflexivity.
+  - cbn [sets_toks] in H. fold (sets_toks kk srcs ctgt cval) in H. inv_bind H. inversion H; subst; clear H.
+    cbn [map List.concat flat_map fst snd]. rewrite (IH _ eq_refl), st_app, st_ctext, !st_tg.
+    rewrite (rtoks_complete _ _ _ E), (itoks_tabs _ _ _ _ _ E0), <- app_assoc. reflexivity.
+Qed.
+
+Ltac stabs := rewrite ?st_salias, ?st_sparen, ?st_app, ?st_tx, ?st_ctext, ?st_tg; cbn [app].
+
+Theorem sel_toks_complete kin walias subquery ali c withs distinct selects from joins wheres havings groupbys orderbys l o fu ts :
+  sel_toks kin walias subquery ali c withs distinct selects from joins wheres havings groupbys orderbys l o fu = Ok ts ->
+  stok_tables ts = match selects with
+                   | [] => []
+                   | _ => sel_expected (k_gba (defaults c kin)) (stmt_srcs (base_tables from) from joins)
+                                       selects joins wheres havings groupbys orderbys end.
+Proof.
+  unfold sel_toks. lazy zeta.
+  set (k := defaults c kin). set (nm := stmt_names (base_tables from) from joins).
+  set (srcs := stmt_srcs (base_tables from) from joins). set (wns := sel_wns from joins wheres).
+  set (kk := with_c k (set_wn (kc k) wns)).
+  destruct selects as [|s0 sels]; [intros H; inversion H; reflexivity|]. set (selects := s0 :: sels).
+  intros H. inv_bind H. inversion H; subst; clear H. repeat stabs. unfold sel_expected.
+  rewrite tt_jtoks, (mapT_tabs _ (res_tabs srcs) selects (fun x ts H => itoks_tabs _ _ _ _ _ H) _ E0).
+  rewrite tt_js, (join_toks_tabs _ _ _ _ _ _ _ _ _ _ E2).
+  rewrite (where_tabs _ _ _ _ _ _ E3), (where_tabs _ _ _ _ _ _ E5).
+  assert (G : tok_tables a4 = flat_map (fun y => match (if k_gba k then alias_ref selects y else None) with
+                                                  | Some _ => [] | None => res_tabs srcs y end) groupbys).
+  { destruct groupbys as [|g0 gr]; [inversion E4; subst; reflexivity|]. inv_bind E4. inversion E4; subst.
+    rewrite tt_text, tt_jtoks. eapply mapT_tabs; [|eassumption]. intros y ts0 Hy. cbn beta in Hy.
+    destruct (if k_gba k then alias_ref selects y else None); [inversion Hy; subst; reflexivity|].
+    eapply itoks_tabs; eassumption. }
+  assert (O : tok_tables a6 = flat_map (fun yd => match alias_ref selects (fst yd) with
+                                                   | Some _ => [] | None => res_tabs srcs (fst yd) end) orderbys).
+  { destruct orderbys as [|o0 orr]; [inversion E6; subst; reflexivity|]. inv_bind E6. inversion E6; subst.
+    rewrite tt_text, tt_jtoks. eapply order_toks_tabs; eassumption. }
+  rewrite G, O, app_nil_r. reflexivity.
+Qed.
+
+Theorem upd_toks_complete kin c tbl sets from joins wheres l ts :
+  upd_toks kin c tbl sets from joins wheres l = Ok ts ->
+  stok_tables ts = match sets with
+                   | [] => []
+                   | _ => upd_expected (stmt_srcs (tbl :: base_tables from) from joins) sets joins wheres end.
+Proof.
+  unfold upd_toks. lazy zeta.
+  set (k := defaults c kin). set (nm := stmt_names (tbl :: base_tables from) from joins).
+  set (srcs := stmt_srcs (tbl :: base_tables from) from joins). set (wns := upd_wns tbl from joins wheres).
+  set (base := set_wn (kc k) wns). set (kk := with_c k base).
+  destruct sets as [|s0 sr]; [intros H; inversion H; reflexivity|]. set (sets := s0 :: sr).
+  intros H. inv_bind H. inversion H; subst; clear H. repeat stabs. unfold upd_expected.
+  rewrite tt_js, (join_toks_tabs _ _ _ _ _ _ _ _ _ _ E), st_sjoin, (sets_toks_tabs _ _ _ _ _ _ E0).
+  rewrite (where_tabs _ _ _ _ _ _ E2), app_nil_r. reflexivity.
+Qed.
+
+Theorem del_toks_complete kin subquery c from wheres ts :
+  del_toks kin subquery c from wheres = Ok ts ->
+  stok_tables ts = tgt ClWhere (flat_map (res_tabs (src_refs from (fst (name_from sub_count 0 from)))) (opt_list wheres)).
+Proof.
+  unfold del_toks. lazy zeta. intros H. inv_bind H. inversion H; subst; clear H. repeat stabs.
+  rewrite (where_tabs _ _ _ _ _ _ E0). reflexivity.
+Qed.
+
+(* SELECT / UPDATE / DELETE under any incoming keyword arguments: the reference tokens are exactly the expected ones *)
+Theorem stoks_complete : forall kin walias subquery ali x ts,
+  is_sud x = true -> stoks kin walias subquery ali x = Ok ts -> stok_tables ts = expected_refs kin x.
+Proof.
+  intros kin walias subquery ali x ts Hs H. destruct x; try discriminate Hs; cbn [stoks expected_refs q_srcs] in *.
+  - eapply sel_toks_complete; eassumption.
+  - eapply upd_toks_complete; eassumption.
+  - eapply del_toks_complete; eassumption.
+Qed.
